@@ -562,7 +562,7 @@ def fuzz_arm(prop, tier, seed, cov, violations, inconcl, notes, arms_used):
         corpus = os.path.join(wd, f'corpus{i}')
         os.makedirs(corpus)
         cmd = [exe, f'-seed={seed * 1000 + i + 1}', f'-runs={runs}', '-max_len=25', '-len_control=0', '-use_value_profile=1', '-reduce_inputs=0',
-               '-print_final_stats=1', '-handle_segv=0', '-handle_fpe=0', '-handle_ill=0', '-handle_bus=0', '-timeout=60',
+               '-print_final_stats=1', '-handle_segv=0', '-handle_fpe=0', '-handle_ill=0', '-handle_bus=0', '-timeout=1200',
                f'-artifact_prefix={wd}/art{i}-', corpus, os.path.join(wd, 'seeds')]
         try:
             r = subprocess.run(cmd, capture_output=True, text=True, env=env, timeout=int(os.environ.get('VERIF_WATCHDOG_S', '3600')))
